@@ -350,6 +350,36 @@ static void dump_bb_trace(const vh::Recorder & rec, const vh::PlanSource & src)
 
 static FILE * ev_out = nullptr;
 static FILE * gb_out = nullptr;
+static FILE * tr_out = nullptr;
+
+// Projection for spec/TraceTransition.tla: the particles emitted inside every nucltrans* / pair / PbAtShell scope (eV)
+static void dump_tr_trace(const vh::Recorder & rec)
+{
+  if (!tr_out) return;
+  auto ev = [](double mev) { return std::llround(mev * 1e6); };
+  int depth = -1;
+  for (const auto & e : rec.evs) {
+    if (depth < 0) {
+      if (e.kind != 0) continue;
+      bool nt = e.name.compare(0, 9, "nucltrans") == 0;
+      if (!(nt || e.name == "pair" || e.name == "PbAtShell")) continue;
+      depth = e.depth;
+      long long eg = 0, ebk = 0, ebl = 0, ebm = 0;
+      if (e.name == "nucltransK") { eg = ev(e.a[0]); ebk = ev(e.a[1]); }
+      else if (e.name == "nucltransKL") { eg = ev(e.a[0]); ebk = ev(e.a[1]); ebl = ev(e.a[3]); }
+      else if (nt) { eg = ev(e.a[0]); ebk = ev(e.a[1]); ebl = ev(e.a[3]); ebm = ev(e.a[5]); }
+      else if (e.name == "pair") eg = ev(e.a[0]);
+      else eg = (long long)e.a[0] * 1000;
+      std::fprintf(tr_out, "{\"e\":\"Begin\",\"p\":\"%s\",\"eg\":%lld,\"ebk\":%lld,\"ebl\":%lld,\"ebm\":%lld}\n", e.name.c_str(), eg, ebk, ebl, ebm);
+    } else if (e.kind == 1 && e.depth == depth) {
+      std::fprintf(tr_out, "{\"e\":\"End\"}\n");
+      depth = -1;
+    } else if (e.kind == 0 && e.name == "particle") {
+      int c = (int)e.a[0];
+      std::fprintf(tr_out, "{\"e\":\"Emit\",\"c\":\"%s\",\"ev\":%lld}\n", c == 1 ? "g" : c == 2 ? "e+" : c == 3 ? "e-" : "a", (long long)ev(e.a[1]));
+    }
+  }
+}
 
 // Dispatch projection for spec/TraceGenbb.tla: which routines genbbsub entered for a name
 static void dump_gb_trace(const vh::Recorder & rec, const bxdecay0::event & ev, const std::string & cat, const std::string & name)
@@ -417,6 +447,7 @@ int main(int argc, char ** argv)
     if (std::string(argv[i]) == "--bb-trace" && i + 1 < argc) bb_out = std::fopen(argv[++i], "w");
     if (std::string(argv[i]) == "--ev-trace" && i + 1 < argc) ev_out = std::fopen(argv[++i], "w");
     if (std::string(argv[i]) == "--gb-trace" && i + 1 < argc) gb_out = std::fopen(argv[++i], "w");
+    if (std::string(argv[i]) == "--tr-trace" && i + 1 < argc) tr_out = std::fopen(argv[++i], "w");
   }
   std::set<std::string> ref_bkg_inited;
   std::string line;
@@ -449,20 +480,26 @@ int main(int argc, char ** argv)
         }
         src.plans.push_back(pl);
       }
+      bool reserve_event = false; // trailer "R": the event object has room for 64 particles (no reallocation while filling)
       {
         std::string tag;
-        if (ls >> tag && tag == "T") {
-          size_t k;
-          ls >> k;
-          for (size_t i = 0; i < k; i++) {
-            std::string s;
-            ls >> s;
-            src.tplan.push_back(parse_plan_val(s));
+        while (ls >> tag) {
+          if (tag == "T") {
+            size_t k;
+            ls >> k;
+            for (size_t i = 0; i < k; i++) {
+              std::string s;
+              ls >> s;
+              src.tplan.push_back(parse_plan_val(s));
+            }
+          } else if (tag == "R") {
+            reserve_event = true;
           }
         }
       }
       Result r;
       bxdecay0::event ev;
+      if (reserve_event) ev.grab_particles().reserve(64);
       bxdecay0::bbpars pars;
       int ier = 0;
       rec.install();
@@ -493,6 +530,7 @@ int main(int argc, char ** argv)
       }
       dump_trace(id, name, rec, src, ev);
       dump_sch_trace(rec, src);
+      dump_tr_trace(rec);
       if (r.cls != "port-exception" && r.cls != "port-error") dump_gb_trace(rec, ev, "bkg", name);
       if (r.cls != "port-exception" && r.cls != "port-error") vh::dump_ev_trace(ev_out, id, ev, name, false, 0, 0, 0, 0, false, 0);
       emit(id, r);
@@ -517,9 +555,10 @@ int main(int argc, char ** argv)
         plans.push_back(pl);
       }
       std::vector<double> tplan;
+      bool reserve_event = false;
       bxdecay0::bbpars pars;
       {
-        // optional trailers: "T k v1..vk" transition-outcome deviates; "N c1..c7" nuclear matrix elements of the
+        // optional trailers ("R": event object with room for 64 particles): "T k v1..vk" transition-outcome deviates; "N c1..c7" nuclear matrix elements of the
         // rhc-eta mode, set on both sides (Decay0: COMMON /eta_nme/)
         double nme[7] = {0, 0, 0, 0, 0, 0, 0};
         std::string tag;
@@ -534,6 +573,8 @@ int main(int argc, char ** argv)
             }
           } else if (tag == "N") {
             for (int i = 0; i < 7; i++) ls >> nme[i];
+          } else if (tag == "R") {
+            reserve_event = true;
           }
         }
         pars.chi_GTw = eta_nme_.chi_GTw = nme[0];
@@ -604,6 +645,7 @@ int main(int argc, char ** argv)
         }
         Result r;
         bxdecay0::event ev;
+        if (reserve_event) ev.grab_particles().reserve(64);
         rec.install();
         try {
           bxdecay0::genbbsub(src, ev, bxdecay0::GENBBSUB_I2BBS_DBD, name, level, mode, bxdecay0::GENBBSUB_ISTART_GENERATE, ier, pars);
@@ -629,6 +671,7 @@ int main(int argc, char ** argv)
         }
         dump_trace(id + ":" + std::to_string(iev), name, rec, src, ev);
         dump_sch_trace(rec, src);
+        dump_tr_trace(rec);
         dump_bb_trace(rec, src);
         if (r.cls != "port-exception") {
           int steps = 0;
@@ -645,5 +688,6 @@ int main(int argc, char ** argv)
   if (bb_out) std::fclose(bb_out);
   if (ev_out) std::fclose(ev_out);
   if (gb_out) std::fclose(gb_out);
+  if (tr_out) std::fclose(tr_out);
   return 0;
 }
